@@ -90,6 +90,18 @@ fn axes(quick: bool, f32: bool) -> Vec<Axis> {
     ] {
         v.push(Axis::new(name.to_string(), x));
     }
+    // one far-away knot and a burst of closely spaced ones: the whole burst is within rounding
+    // distance (relative to the span) of the knot the position estimate lands on
+    for k in [9usize, 12, 17] {
+        for exp in if f32 { [16, 18, 21] } else { [43, 46, 50] } {
+            let step = 2.0f64.powi(-exp);
+            let mut left: Vec<f64> = vec![-4096.0];
+            left.extend((0..k).map(|i| i as f64 * step));
+            let right: Vec<f64> = left.iter().rev().map(|t| -t).collect();
+            v.push(Axis::new(format!("burst-after-far-knot:k{k}:2^-{exp}"), left));
+            v.push(Axis::new(format!("burst-before-far-knot:k{k}:2^-{exp}"), right));
+        }
+    }
     v
 }
 
